@@ -17,6 +17,15 @@ CHECKS = {
               'are evaluated on the implementation outputs.'),
         technique='Lean 4 proof (induction over call history) + differential correspondence harness',
         design='§5 C07'),
+    'C15': dict(
+        text=('Theorems over an executable Lean model of CountMinSketch (int32 cells with explicit wrap) parametric in an ARBITRARY '
+              'hash, and of the bounded counter, for ALL update streams, depths >= 1 and widths: every cell holds exactly the weight '
+              'hashed into it (cell_eq, invariant by induction over the stream), hence true weight <= query <= total and every row '
+              'sums to the total (hypothesis: total < 2^31); counter never over-counts, tracks <= bound keys, exact while fewer than '
+              'bound distinct values were seen. Tie: the real classes are run on generated streams (forced collisions) and the whole '
+              'matrix, all queries and the counter contents must equal the model; real cms_hash locations are shipped to the model.'),
+        technique='Lean 4 proof (representation invariant by induction over the stream) + differential correspondence harness',
+        design='§5 C15'),
 }
 
 NOT_YET = {}
